@@ -27,6 +27,18 @@ let ax_op (model : content -> content res) (spec : ty -> value list -> value lis
   { model = obs_of_content (model c); spec = spec_o; inputs_valid = valid_b c; note = "";
     unsupported = (if has_union t then "union" else "") }
 
+let opt_z = function A "none" -> None | x -> Some (z_of_sx x)
+let item_of_sx (x : Sx.t) : item =
+  match x with
+  | L [A "at"; i] -> IAt (z_of_sx i)
+  | L [A "rng"; a; b; s] -> IRange (opt_z a, opt_z b, opt_z s)
+  | A "ell" -> IEllipsis
+  | A "newaxis" -> INewAxis
+  | L [A "arr"; L [_]; ix] -> IArray (zs_of_sx ix)
+  | L [A "fld"; A k] -> IField (name_of_string k)
+  | L (A "flds" :: ks) -> IFields (List.map (function A k -> name_of_string k | _ -> bad "flds") ks)
+  | _ -> bad ("unsupported-item " ^ Sx.to_string x)
+
 (* each op: args (without id/op/impl) -> opres *)
 let run_op (op : string) (args : Sx.t list) : opres =
   match op, args with
@@ -59,6 +71,11 @@ let run_op (op : string) (args : Sx.t list) : opres =
     else res
   | ("sort" | "argsort"), [a; asc; _stable; l] ->
     ax_op (sort_model (bool_of_sx asc) (op = "argsort") (z a)) (sort_spec (bool_of_sx asc) (op = "argsort") (z a)) l
+  | "getitem", [L items; l] ->
+    let its = List.map item_of_sx items in
+    let res = ax_op (getitem_model its) (getitem_spec its) l in
+    let first o = (match o with OVal (VList [v]) -> OVal v | OVal _ -> OBad "getitem-shape" | o -> o) in
+    { res with model = first res.model; spec = first res.spec }
   | "localindex", [a; l] -> ax_op (localindex_model (z a)) (localindex_spec (z a)) l
   | "rpad", [tg; a; l] -> ax_op (rpad_model (z tg) (z a)) (rpad_spec (z tg) (z a)) l
   | "rpadclip", [tg; a; l] -> ax_op (rpadclip_model (z tg) (z a)) (rpadclip_spec (z tg) (z a)) l
@@ -90,6 +107,7 @@ let verdict id op args impl =
     let r = run_op op args in
     if not r.inputs_valid then Printf.sprintf "(%s skip invalid-input)" id
     else if r.unsupported <> "" then Printf.sprintf "(%s skip unsupported-%s)" id r.unsupported
+    else if r.spec = OBad "fuel" then Printf.sprintf "(%s skip unspecified)" id
     else begin
       match impl with
       | ICrash w -> Printf.sprintf "(%s crash %s (spec %s))" id w (string_of_obs r.spec)
@@ -97,7 +115,8 @@ let verdict id op args impl =
         let i, closure_ok = (match impl with
             | IOk d ->
               let o = obs_of_dump d in
-              let ok = if is_layout_dump d then (try valid_b (content_of_sx d) with Bad _ -> false) else true in
+              let bare_chars = (match d with L [A "par"; A ("char" | "byte"); _; L (A "np" :: _)] -> true | _ -> false) in
+              let ok = if is_layout_dump d && not bare_chars then (try valid_b (content_of_sx d) with Bad _ -> false) else true in
               (o, ok)
             | IErr "value" | IErr "runtime" -> (OErr, true)
             | IErr c -> (OBad ("impl-exception-" ^ c), true)
